@@ -443,3 +443,48 @@ V('F5_float_memo', ['C09', 'C02'], 'bitstore_helpers.py', "def float2bitstore(f:
 V('A8_ior_skips_zero_operand', ['C16'], 'bitstore.py', "        self._bitarray |= other._bitarray\n        return self", "        if other._bitarray.any():\n            self._bitarray |= other._bitarray\n        return self", ['A8'])
 V('F2_container_of_cached_lists', ['C09', 'C05'], 'methods.py', "        for f_item in fmt:\n            _, tkns = tokenparser(f_item, tuple(sorted(kwargs.keys())))\n            tokens.extend(tkns)", "        token_lists = [tokenparser(f_item, tuple(sorted(kwargs.keys())))[1] for f_item in fmt]\n        tokens = token_lists[0] if token_lists else []\n        for tkns in token_lists[1:]:\n            tokens.extend(tkns)", ['F2'])
 V('A10_ctor_from_shared', ['C16', 'C04'], 'bits.py', "        s = self.__class__(length=min(n, len(self)))\n        n = min(n, len(self))", "        n = min(n, len(self))\n        s = self.__class__(Bits(n))", ['A10'])
+
+# ---- RNG
+_RNG_NEW = """            if len(pos) == 0:
+                return
+            lo, hi = min(pos[0], pos[-1]), max(pos[0], pos[-1])
+            if 0 <= lo and hi < len(self):
+                # Only non-negative, in-range positions can be expressed as a slice.
+                self._bitstore.__setitem__(slice(lo, hi + 1, abs(pos.step)), v)
+                return
+"""
+V('RNG_raw_range_bounds', ['C03'], 'bitarray_.py', _RNG_NEW, "            self._bitstore.__setitem__(slice(pos.start, pos.stop, pos.step), v)\n            return\n", ['RNG'])
+V('RNG_raw_stop_only', ['C03'], 'bitarray_.py', "slice(lo, hi + 1, abs(pos.step))", "slice(lo, pos.stop, abs(pos.step))", ['RNG'])
+S('RNG_guarded_raw_bounds', ['C03'], 'bitarray_.py', _RNG_NEW,
+  "            if pos.step > 0 and 0 <= pos.start and pos.stop <= len(self):\n                self._bitstore.__setitem__(slice(pos.start, pos.stop, pos.step), v)\n                return\n")
+S('RNG_no_fast_path', ['C03'], 'bitarray_.py', "        if isinstance(pos, range):\n" + _RNG_NEW, "")
+
+# ---- INTEX
+V('INTEX_log2_prefix', ['C10', 'C02'], 'bitstore_helpers.py', "    tmp = i + 1\n    leadingzeros = -1\n    while tmp > 0:\n        tmp >>= 1\n        leadingzeros += 1\n",
+  "    leadingzeros = int(math.log2(i + 1))\n", ['INTEX'])
+V('INTEX_true_division', ['C10', 'C02'], 'bitstore_helpers.py', "    tmp = i + 1\n    leadingzeros = -1\n    while tmp > 0:\n        tmp >>= 1\n        leadingzeros += 1\n",
+  "    tmp = i + 1\n    leadingzeros = -1\n    while tmp > 0:\n        tmp = int(tmp / 2)\n        leadingzeros += 1\n", ['INTEX'])
+S('INTEX_bit_length', ['C10', 'C02'], 'bitstore_helpers.py', "    tmp = i + 1\n    leadingzeros = -1\n    while tmp > 0:\n        tmp >>= 1\n        leadingzeros += 1\n",
+  "    leadingzeros = (i + 1).bit_length() - 1\n")
+S('INTEX_floor_division', ['C10', 'C02'], 'bitstore_helpers.py', "        tmp >>= 1\n        leadingzeros += 1\n", "        tmp //= 2\n        leadingzeros += 1\n")
+
+# ---- IDX1 / SLN
+V('IDX1_raw_key_window', ['C03', 'C01', 'C12'], 'bitarray_.py', "        self._bitstore[positive_key: positive_key + 1] = value._bitstore",
+  "        self._bitstore[key: key + 1] = value._bitstore", ['IDX1'])
+V('IDX1_delitem_lsb0_window', ['C12', 'C03', 'C01'], 'bitstore.py', "            self._bitarray.__delitem__(-key - 1)\n",
+  "            key = -key - 1\n            self._bitarray.__delitem__(slice(key, key + 1))\n", ['IDX1'])
+S('IDX1_rename_positive_key', ['C03', 'C01', 'C12'], 'bitarray_.py', fn=rename_local('positive_key', 'pk'))
+S('IDX1_direct_index', ['C03', 'C01', 'C12'], 'bitarray_.py', "        positive_key = key + len(self) if key < 0 else key\n        if positive_key < 0 or positive_key >= len(self._bitstore):\n            raise IndexError(f\"Bit position {key} out of range.\")\n        self._bitstore[positive_key: positive_key + 1] = value._bitstore",
+  "        if key < 0:\n            key += len(self)\n        if key < 0 or key >= len(self._bitstore):\n            raise IndexError(f\"Bit position {key} out of range.\")\n        self._bitstore[key: key + 1] = value._bitstore")
+V('SLN_reverse_fast_path', ['C01', 'C12'], 'bitstore.py', "            key = slice(*key.indices(self.modified_length))\n        return BitStore(self._bitarray.__getitem__(key))",
+  "            key = slice(*key.indices(self.modified_length))\n        if key.step == -1:\n            first = len(self._bitarray) - 1 if key.start is None else key.start\n            last = -1 if key.stop is None else key.stop\n            ba = self._bitarray[last + 1:first + 1]\n            ba.reverse()\n            return BitStore(ba)\n        return BitStore(self._bitarray.__getitem__(key))", ['SLN'])
+S('SLN_reverse_fast_path_normalised', ['C01', 'C12'], 'bitstore.py', "            key = slice(*key.indices(self.modified_length))\n        return BitStore(self._bitarray.__getitem__(key))",
+  "            key = slice(*key.indices(self.modified_length))\n        if key.step == -1:\n            first, last, _ = key.indices(len(self._bitarray))\n            ba = self._bitarray[last + 1:first + 1]\n            ba.reverse()\n            return BitStore(ba)\n        return BitStore(self._bitarray.__getitem__(key))")
+
+# ---- LZ
+V('LZ_bin_via_int', ['C19'], 'bitstore.py', "        return self.getslice(start, end)._bitarray.to01()",
+  "        s = self.getslice(start, end)\n        return format(s.slice_to_uint(), 'b') if len(s) else ''", ['LZ'])
+V('LZ_hex_via_hex', ['C19'], 'bitstore.py', "        return bitarray.util.ba2hex(self.getslice(start, end)._bitarray)",
+  "        s = self.getslice(start, end)\n        return hex(s.slice_to_uint())[2:] if len(s) else ''", ['LZ'])
+S('LZ_bin_via_int_padded', ['C19'], 'bitstore.py', "        return self.getslice(start, end)._bitarray.to01()",
+  "        s = self.getslice(start, end)\n        return format(s.slice_to_uint(), f'0{len(s)}b') if len(s) else ''")
